@@ -1,6 +1,5 @@
 //! C04 — built-in term similarities follow their definitions, symmetric and finite.
 
-use crate::build::{via_builder, Finish};
 use crate::gen::{self, GenCfg};
 use crate::model::*;
 use crate::observe::guarded;
@@ -113,10 +112,15 @@ fn concrete(algo: usize, k: InformationContentKind, a: &hpo::HpoTerm, b: &hpo::H
 }
 
 pub fn check(f: &Facts, stats: &mut Stats) -> CheckResult {
-    let ont = match via_builder(f, Finish::Minimal) {
+    let (ont, via) = match super::common::build_auto(f) {
         Ok(o) => o,
-        Err(e) => return fail("construct/builder", e),
+        Err(e) => return fail("construct", e),
     };
+    stats.count(&format!("path:{via}"), 1);
+    if f.terms.iter().any(|t| t.obsolete) {
+        stats.label("obsolete-terms");
+    }
+    // (the Builder API ignores flags; with own v3 bytes they are present)
     let m = Model::new(f);
     let ks = kinds();
     let mut classes: BTreeSet<&'static str> = BTreeSet::new();
@@ -227,7 +231,7 @@ impl Property for C04 {
         "C04"
     }
     fn rule(&self) -> String {
-        "Generated: annotated ontologies (<=12 terms quick / 20 thorough, 0-8 records per kind, kinds with zero records, terms without annotations, several roots, detached terms); ALL ordered pairs x 8 algorithms x 3 kinds. Oracle: the documented formulas evaluated in f64 on model quantities (ancestor sets, IC = -ln(n/N), BFS distance, inherited record sets) with the documented special cases; tolerance 1e-4 relative (f32 result); exact checks: not NaN, finite, >= 0, Builtins::X / concrete struct / similarity_score bit-identical, Builtins::new(name) selects the same variant for every documented alias; symmetry within 1e-6. evaluations = (pair, algorithm, kind) triples. Non-trivial = ontology has a pair of distinct terms with at least one side annotated for the kind; all pair classes (identical, ancestor-descendant, siblings, cousins, no common ancestor; both/one/none annotated) must occur in a run. Distinct by canonical facts.".into()
+        "Generated: annotated ontologies built through the Builder or, with obsolete / replaced terms, through own v3 bytes (<=12 terms quick / 20 thorough, 0-8 records per kind, kinds with zero records, terms without annotations, several roots, detached terms); ALL ordered pairs x 8 algorithms x 3 kinds. Oracle: the documented formulas evaluated in f64 on model quantities (ancestor sets, IC = -ln(n/N), BFS distance, inherited record sets) with the documented special cases; tolerance 1e-4 relative (f32 result); exact checks: not NaN, finite, >= 0, Builtins::X / concrete struct / similarity_score bit-identical, Builtins::new(name) selects the same variant for every documented alias; symmetry within 1e-6. evaluations = (pair, algorithm, kind) triples. Non-trivial = ontology has a pair of distinct terms with at least one side annotated for the kind; all pair classes (identical, ancestor-descendant, siblings, cousins, no common ancestor; both/one/none annotated) must occur in a run. Distinct by canonical facts.".into()
     }
     fn assumptions(&self) -> Vec<String> {
         vec![
@@ -243,14 +247,15 @@ impl Property for C04 {
         }
     }
     fn required_labels(&self, _tier: Tier) -> Vec<&'static str> {
-        vec!["nontrivial", "ancestors>30", "pair:identical", "pair:ancestor-descendant", "pair:siblings", "pair:cousins", "pair:no-common-ancestor", "both-annotated", "one-annotated", "none-annotated"]
+        vec!["nontrivial", "obsolete-terms", "ancestors>30", "pair:identical", "pair:ancestor-descendant", "pair:siblings", "pair:cousins", "pair:no-common-ancestor", "both-annotated", "one-annotated", "none-annotated"]
     }
     fn run_generated(&self, tier: Tier, seed: u64, n: u64, stats: &mut Stats) -> Option<(Value, Failure)> {
         let max = if tier == Tier::Quick { 12 } else { 20 };
         // 1 case in 40: 32-40 terms in chain / fan shapes (ancestor sets beyond the inline capacity of an
         // id group; ladders are excluded here: the library's distance search is exponential on them)
         let strategy = proptest::prop_oneof![
-            39 => gen::facts(GenCfg::small().terms(1, max).recs(8)),
+            26 => gen::facts(GenCfg::small().terms(1, max).recs(8)),
+            13 => gen::facts(GenCfg::small().terms(2, max).recs(8).standard().with_flags(true).names(crate::gen::NameMode::Capped)),
             1 => gen::facts(GenCfg::small().terms(32, 40).recs(6).shapes(&[1, 3])),
         ];
         run_typed(proptest::strategy::Strategy::boxed(strategy), seed, n, stats, check)
